@@ -75,7 +75,7 @@ def execute(ctx, case):
         s = derive.build(pos, neg, ep, en, sc, ec, case.get("via", "ctor"), case.get("_seed", 0))
     # relations are about the object under test: a derived object (bootstrap sample, swap of a sample) has its own content
     pos, neg, ep, en = np.asarray(s.pos), np.asarray(s.neg), int(s.nb_easy_pos), int(s.nb_easy_neg)
-    sc, ec = s.score_class.value, s.equal_class.value
+    sc, ec = monitors.cfg_of(s)
     a_full = s.auc()  # all judged by M-auc
     a = s.auc(lo, up)
     s.auc(lo, up, y_axis="fnr")
